@@ -24,6 +24,14 @@ set_option linter.unusedSimpArgs false
 
 variable {K : Type} [Field K] [DecidableEq K] [LT K] [DecidableLT K]
 
+/-! ### output arguments with zero output coefficient are not read -/
+
+/-- `axpby(a, x, 0, y)` never reads `y` -/
+theorem axpby_b0_indep (a : K) (x y y' : Vec K) : axpby a x 0 y = axpby a x 0 y' := by simp [axpby]
+
+/-- `spmv(α, A, x, 0, y)` never reads `y` -/
+theorem spmv_b0_indep (α : K) (A : CRS K) (x y y' : Vec K) : spmv α A x 0 y = spmv α A x 0 y' := by simp [spmv]
+
 /-! ### `mgs` -/
 
 /-- Gram–Schmidt reads `v[0..j]` and `v_new` only; it never reads `H` -/
